@@ -79,6 +79,11 @@ impl InlineCache {
         }
 
         let prototype_shape = if slot.attributes.contains(SlotAttributes::PROTOTYPE) {
+            // A unique shape keeps its address when a property is inserted, so an own property
+            // that later shadows the prototype's one would not invalidate the entry.
+            if shape.is_unique() {
+                return;
+            }
             let Some(prototype) = shape.prototype() else {
                 return;
             };
